@@ -8,7 +8,7 @@ from common import lean
 from common.ctx import ROOT, stable_hash
 from common.shard import ShardResult, run_shards
 from engines import irgen
-from engines.irlib import World, execute, dump_impl, canon_model_dump, oracle, prepare, cleanup
+from engines.irlib import World, execute, dump_impl, canon_model_dump, oracle, prepare, cleanup, model_apply, observe
 
 MODULES = {"C01": ["Spydr.IR.Props.C01"], "C02": ["Spydr.IR.Props.C02"], "C14": ["Spydr.IR.Props.C14", "Spydr.IR.Props.C14Names"]}
 from registry import META
@@ -63,15 +63,16 @@ def run_script(ops_or_len, rng, profile, drv, res, pid, record=None, check_every
     script = []
     cur = dump_impl(world)
     for k in range(n):
-        op = irgen.gen_op(rng, cur, profile) if gen else ops_or_len[k]
+        op = irgen.gen_op(rng, cur, profile, compound=True) if gen else ops_or_len[k]
         script.append(op)
+        observe(world)
         tok = prepare(world, op)
         before = snapshot(world)
         repoint_before = positional_wires(world, op)
         oprng = random.Random(stable_hash(op))
         out = execute(world, op, oprng, tok)
         world.note_outer_pins()
-        mres = drv.ask({"cmd": "op", "op": {kk: v for kk, v in op.items() if kk not in ("create", "asset", "deleter", "stored_only", "proxy")}})
+        mres = model_apply(drv, op)
         if "error" in mres:
             raise RuntimeError("driver rejected op %r: %s" % (op, mres["error"]))
         cur = dump_impl(world)
